@@ -47,6 +47,8 @@ def configs(tier, prop="C06"):
         for uni in ("none", "sym"):
             for filt in ("none", "via", "result"):
                 cfg(cs, 3, uni, filt, falsy=(cs == ["DE", "UE"]))
+    # distinct vertices that carry one and the same uid (a graph and its copy joined together)
+    cfg(["DE", "UE"], 3, "none", "none", same_uid=True)
     # A': a half-assigned edge (v2 is None) next to a universe: None is never a member, so every traversal skips it
     cfg(["DE", "UE"], 3, "sym", "none", none_end=True, dir=1, unk=2)
     # B: three links; interchangeable links ordered (symmetry breaking), start fixed by symmetry
@@ -147,7 +149,7 @@ def scenario(B, p):
     vcls = ["Vertex"] * p["nv"]
     if p.get("falsy"):
         vcls[1] = "FalsyVertex"
-    verts = make_vertices(B, p["nv"], vcls)
+    verts = make_vertices(B, p["nv"], vcls, uid=7 if p.get("same_uid") else None)
     links = make_links(B, p["classes"])
     n = len(links)
     symbolic_assoc_state(B, verts, links, n, n, two_ended_wellformed=True)
